@@ -27,6 +27,7 @@ class _Info:
         self.whole = []         # (dst local, src local)  whole copies between locals
         self.refs = {}          # ref local -> ('ref', target local) | ('copy', other ref local)
         self.names = {}         # (local, field) -> name
+        self.optys = {}         # (local, field) -> type of the operand an aggregate literal puts there
 
 
 def _tuple_arity(ty):
@@ -50,7 +51,28 @@ def _tuple_arity(ty):
     return n
 
 
-def sroa(facts, body, max_rounds=3):
+def _tuple_field_ty(ty, fi):
+    """Type of component fi of a tuple type string `(A, B, ..)`, or None."""
+    ty = (ty or '').strip()
+    if not (ty.startswith('(') and ty.endswith(')')):
+        return None
+    parts, depth, cur = [], 0, ''
+    for ch in ty[1:-1]:
+        if ch in '<([':
+            depth += 1
+        elif ch in '>)]':
+            depth -= 1
+        if ch == ',' and depth == 0:
+            parts.append(cur.strip())
+            cur = ''
+        else:
+            cur += ch
+    if cur.strip():
+        parts.append(cur.strip())
+    return parts[fi] if fi < len(parts) else None
+
+
+def sroa(facts, body, max_rounds=4):
     cur = body
     total = 0
     for _ in range(max_rounds):
@@ -186,6 +208,10 @@ def _sroa_once(facts, body):
                 dst = s['place']['l'] if kd == 'whole' else alias[s['place']['l']]
                 if r == 'aggr' and rv.get('agg') in ('tuple', 'adt') and (rv.get('agg') == 'tuple' or _struct_like(facts, locs[dst]['ty'])):
                     info.nfields[dst] = max(info.nfields.get(dst, 0), len(rv['ops']))
+                    for i, o in enumerate(rv['ops']):
+                        oty = locs[o['l']]['ty'] if ('l' in o and not o['p']) else o.get('ty')
+                        if oty and not str(oty).startswith('?'):
+                            info.optys[(dst, i)] = oty
                     for i, nm in enumerate(rv.get('fields') or []):
                         info.names[(dst, i)] = nm
                     for o in rv['ops']:
@@ -323,10 +349,17 @@ def _sroa_once(facts, body):
     for l in sorted(good):
         for fi in sorted(fset[find(l)]):
             ty = info.fields.get(l, {}).get(fi)
-            if ty is None:
-                for l2 in good:
-                    if find(l2) == find(l) and fi in info.fields.get(l2, {}):
-                        ty = info.fields[l2][fi]
+            if ty is None or str(ty).startswith('?'):
+                for l2 in sorted(good):
+                    if find(l2) != find(l):
+                        continue
+                    cands2 = [info.fields.get(l2, {}).get(fi), info.optys.get((l2, fi)), _tuple_field_ty(locs[l2]['ty'], fi)]
+                    for c2 in cands2:
+                        if c2 and not str(c2).startswith('?'):
+                            ty = c2
+                            break
+                    if ty and not str(ty).startswith('?'):
+                        break
             nm = info.names.get((l, fi))
             base = locs[l].get('name')
             nl.append({'ty': ty or '?', 'name': ('%s.%s' % (base, nm if nm is not None else fi)) if base else None, 'mut': True,
